@@ -120,6 +120,20 @@ def m2m_alphabet():
             {'t': 'AddField', 'model': 'Alpha', 'field': 'y', 'ftype': 'IntegerField', 'initial': '1', 'attrs': []}]
 
 
+def index_rename_alphabet():
+    """index changes and renames of the same columns of `Alpha` (a: indexed integer, b: nullable char):
+    what a rename costs must not depend on bookkeeping that an earlier mutation of the batch is about to change"""
+    cf = lambda field, *attrs: {'t': 'ChangeField', 'model': 'Alpha', 'field': field, 'ftype': None, 'initial': None,
+                                'attrs': [list(a) for a in attrs]}
+    rn = lambda old, new: {'t': 'RenameField', 'model': 'Alpha', 'old': old, 'new': new, 'db_column': None,
+                           'db_table': None}
+    return [cf('a', ('db_index', 'false')), cf('a', ('db_index', 'true')), cf('b', ('db_index', 'true')),
+            cf('b', ('db_index', 'false')), cf('c', ('db_index', 'false')), rn('a', 'c'), rn('b', 'c'), rn('c', 'a'),
+            {'t': 'AddField', 'model': 'Alpha', 'field': 'c', 'ftype': 'IntegerField', 'initial': '1',
+             'attrs': [['db_index', 'true']]},
+            cf('a', ('null', 'true'))]
+
+
 def run(ctx):
     dj.setup()
     quick = ctx.tier == 'quick'
@@ -150,7 +164,13 @@ def run(ctx):
     rel3 = list(optrig.valid_sequences(sig2, m2m_alphabet(), 3))
     ctx.rng.shuffle(rel3)
     rel += rel3[:40 if quick else 1200]
-    work = [(spec2, q) for q in rel] + [(spec, q) for q in seqs]
+    # index changes and renames of the same column: exhaustive length <= 2, sampled length 3
+    ira = index_rename_alphabet()
+    ir = list(optrig.valid_sequences(sig, ira, 2))
+    ir3 = list(optrig.valid_sequences(sig, ira, 3))
+    ctx.rng.shuffle(ir3)
+    ir += ir3[:50 if quick else 2000]
+    work = [(spec2, q) for q in rel] + [(spec, q) for q in ir] + [(spec, q) for q in seqs]
     merge_witness = None
     reqs = []
     pending = []
@@ -159,7 +179,7 @@ def run(ctx):
             break
         if not seq:
             continue
-        ctx.count('space:relations' if spec is spec2 else 'space:C03')
+        ctx.count('space:relations' if spec is spec2 else 'space:C03+index/rename')
         try:
             ops_s, sql_s = run_on_db(spec, seq, stepwise=True)
         except Exception:
